@@ -168,6 +168,7 @@ func (c *zzChainModel) SendRawTransaction(tx *wire.MsgTx, _ bool) (*chainhash.Ha
 }
 
 type zzWalletWorld struct {
+	dryAcct uint32         // C09: account number a dry-run import used
 	coins9 []wire.OutPoint // C09: funding outpoints
 	db     *memdb.DB
 	w      *Wallet
